@@ -20,10 +20,18 @@ def leaf(kind, qs, chans, dur, tag='', extra=None):
     return 'T(%s)' % base
 
 
+def mask(t, kind='', q=0, q2=-1, chan=''):
+    return 'MaskRec(%s, %s, %d, %d, %s)' % (tla(t), tla(kind), q, q2, tla(chan))
+
+
+def mask_list(*ms):
+    return '<<' + ', '.join(ms) + '>>'
+
+
 DEFAULT_CFG = {'RO': 8, 'MW': 4, 'FL': 4, 'RST': 8}
 
 
-def wrapper(name, menu, reps, configs, acts, linktypes, base='CircuitGen', extra_defs='', anchors=None, obskinds=('full',)):
+def wrapper(name, menu, reps, configs, acts, linktypes, base='CircuitGen', extra_defs='', anchors=None, obskinds=('full',), masks=()):
     cfgs = ', '.join('[RO |-> %d, MW |-> %d, FL |-> %d, RST |-> %d]' % (c['RO'], c['MW'], c['FL'], c['RST']) for c in configs)
     return '''---- MODULE %s ----
 EXTENDS %s
@@ -34,15 +42,16 @@ M_Acts == {%s}
 M_LinkTypes == {%s}
 M_Anchors == %s
 M_ObsKinds == {%s}
+M_Masks == {%s}
 %s
 ====
 ''' % (name, base, ',\n  '.join(menu), ', '.join(tla(list(r)) for r in reps), cfgs, ', '.join(tla(a) for a in acts),
-       ', '.join(tla(t) for t in linktypes), ('{' + ',\n  '.join(anchors) + '}') if anchors is not None else 'M_Menu', ', '.join(tla(o) for o in obskinds), extra_defs)
+       ', '.join(tla(t) for t in linktypes), ('{' + ',\n  '.join(anchors) + '}') if anchors is not None else 'M_Menu', ', '.join(tla(o) for o in obskinds), ', '.join(masks), extra_defs)
 
 
 def cfg_text(max_circs, max_objs, max_steps, invariants=(), properties=(), view=None, min_emit=2, one_in=1, deep=False, max_non_anchor=99, init=False):
     s = ('INIT M_Init\nNEXT Next\n' if init else 'SPECIFICATION Spec\n') + 'CONSTANTS MaxCircs = %d MaxObjs = %d MaxSteps = %d MinEmit = %d EmitOneIn = %d DeepRefs = %s MaxNonAnchor = %d\n' % (max_circs, max_objs, max_steps, min_emit, one_in, 'TRUE' if deep else 'FALSE', max_non_anchor)
-    s += ' Menu <- M_Menu Reps <- M_Reps Configs <- M_Configs Acts <- M_Acts LinkTypes <- M_LinkTypes Anchors <- M_Anchors ObsKinds <- M_ObsKinds\n'
+    s += ' Menu <- M_Menu Reps <- M_Reps Configs <- M_Configs Acts <- M_Acts LinkTypes <- M_LinkTypes Anchors <- M_Anchors ObsKinds <- M_ObsKinds Masks <- M_Masks\n'
     if view:
         s += 'VIEW %s\n' % view
     for i in invariants:
@@ -67,12 +76,12 @@ def parse_programs(out):
 
 def run_gen(name, menu, reps=(('fixed', 1),), configs=(DEFAULT_CFG,), acts=('NewCircuit', 'AddOp', 'Obs'),
             linktypes=('FB', 'JS', 'JE'), max_circs=1, max_objs=5, max_steps=5, simulate=None, depth=None,
-            workers=1, seed=1, cap=None, base='CircuitGen', invariants=('EmitProgram',), properties=(), timeout=240, view=None, min_emit=2, one_in=1, deep=False, anchors=None, max_non_anchor=99, init_defs='', obskinds=('full',)):
+            workers=1, seed=1, cap=None, base='CircuitGen', invariants=('EmitProgram',), properties=(), timeout=240, view=None, min_emit=2, one_in=1, deep=False, anchors=None, max_non_anchor=99, init_defs='', obskinds=('full',), masks=()):
     mod = 'MCGen_' + name
     extra = ['-seed', str(seed)]
     res = run_tlc(mod, cfg_text(max_circs, max_objs, max_steps, invariants, properties, view, min_emit, one_in, deep, max_non_anchor, bool(init_defs)), workers=workers,
                   simulate=simulate, depth=depth, extra=extra, name=mod, timeout=timeout,
-                  modules={mod: wrapper(mod, menu, reps, configs, acts, linktypes, base=base, anchors=anchors, extra_defs=init_defs, obskinds=obskinds)})
+                  modules={mod: wrapper(mod, menu, reps, configs, acts, linktypes, base=base, anchors=anchors, extra_defs=init_defs, obskinds=obskinds, masks=masks)})
     progs = parse_programs(res.out)
     total = len(progs)
     if cap and len(progs) > cap:
